@@ -488,7 +488,11 @@ def evaluate(bench, abstract, tables, tamper=None):
             return [fail("terse-schema", got=repr(parsed)[:300], exp=repr(schema)[:300])], b
         schema = parsed
     try:
-        bench.pio.save_scsv(bench.path, schema, b.data)
+        cm = COMMENTS[abstract.get("comments", "none")]
+        if cm is None:
+            bench.pio.save_scsv(bench.path, schema, b.data)
+        else:
+            bench.pio.save_scsv(bench.path, schema, b.data, comments=cm)
     except Exception as e:  # noqa: BLE001
         return [fail("raised", stage="save", exc=exc_label(e), msg=str(getattr(e, "message", e))[:200])], b
     nf = len(b.names)
@@ -1023,12 +1027,21 @@ def load_model(tier, chk):
     return tables, valid, faults, natural
 
 
+# comment lines are written above the schema, each prefixed with "# ": they are YAML comments and take no part in
+# the round trip, whatever they contain (fence-like text, key: value text, a hash, quotes)
+COMMENTS = {"none": None, "empty": [], "plain": ["saved by the harness"], "banner": ["--- generated by a pipeline ---"],
+            "yamlish": ["schema: none", "fields: []", "# nested hash", "it's \"quoted\""], "fence-tail": ["ends with ---", "---"]}
+COMMENT_SEQ = ["none", "plain", "banner", "none", "yamlish", "fence-tail", "empty", "none"]
+
+
 def abstract_of(case, producer="dict"):
     s = case["s"]
     a = dict(delim=s["delim"], missing=s["missing"], fields=[{k: f[k] for k in ("name", "type", "fa", "fb", "form", "unit") if k in f} for f in s["fields"]], producer=producer)
     a["salt"] = zlib.crc32(json.dumps(a, sort_keys=True).encode())
     rng = random.Random(f"{SEED}|{a['salt']}|np")
     a["np"] = [f["type"] in ("float", "complex", "boolean") and rng.random() < 0.3 for f in a["fields"]]
+    # header comments (the documented optional `comments=` of save_scsv / write_scsv_header): a class per case
+    a["comments"] = COMMENT_SEQ[a["salt"] % len(COMMENT_SEQ)]
     return a
 
 
